@@ -246,12 +246,16 @@ def main():
             if ''.join('%d!%s' % (n, chr(t)) for n, t in toks) != bban:
                 toks = [[999, 110]]        # a structure the independent reading does not understand admits nothing
             ib.append({'cc': e['low'], 'tokens': toks})
-        json.dump({'isin_cc': sorted(lib.cps(c) for c in isin._country_codes), 'isrc_cc': sorted(lib.cps(c) for c in isrc._country_codes),
-                   'iban': ib}, fh)
+        json.dump({'isin_cc': sorted(lib.cps(c) for c in getattr(isin, '_country_codes', [])),
+                   'isrc_cc': sorted(lib.cps(c) for c in getattr(isrc, '_country_codes', [])), 'iban': ib}, fh)
+    skip_formats = [f for f, tab in (('isin', getattr(isin, '_country_codes', None)), ('isrc', getattr(isrc, '_country_codes', None))) if not tab]
+    chk.cov['formats_skipped_for_missing_tables'] = skip_formats
     rnd = random.Random(chk.seed)
     p = {'seed': chk.seed, 'bases': 8 if quick else 120, 'random': 60 if quick else 3000}
     units = []
     for f in sorted(FORMATS):
+        if f in skip_formats:
+            continue
         for part in range(4):
             units.append(('val', f, part, 4, p))
     # spec -> code: identifiers constructed by the transcription itself (every length / branch of every format)
